@@ -22,6 +22,7 @@ type Case struct {
 	Desc    string // human description incl. values
 	Aliases []*cdm.Type
 	Structs []*cdm.Type
+	Pre     []cdm.Stmt // global declarations used by Funcs (emitted before the functions)
 	Funcs   []*cdm.Func
 	Body    []cdm.Stmt
 	// ArgSets: if non-nil the case is compiled alone once per level and executed once per argument
@@ -58,6 +59,16 @@ func PrintLn(x cdm.Expr) []cdm.Stmt {
 	return []cdm.Stmt{&cdm.Print{X: x}, &cdm.Print{X: &cdm.Lit{T: cdm.Char, V: rune('\n')}}}
 }
 
+// ProgramOf assembles one program from cases (used by C11 to reuse the families).
+func ProgramOf(cs []*Case, tagged bool) *cdm.Program {
+	for i, c := range cs {
+		if c.index == 0 {
+			c.index = i
+		}
+	}
+	return program(cs, tagged)
+}
+
 func program(cs []*Case, tagged bool) *cdm.Program {
 	p := &cdm.Program{}
 	seenA, seenS := map[string]bool{}, map[string]bool{}
@@ -74,6 +85,7 @@ func program(cs []*Case, tagged bool) *cdm.Program {
 				p.Structs = append(p.Structs, s)
 			}
 		}
+		p.Pre = append(p.Pre, c.Pre...)
 		p.Funcs = append(p.Funcs, c.Funcs...)
 		if c.ArgSets != nil {
 			p.UsesArgs = true
@@ -237,7 +249,11 @@ func runMulti(c *ev.Ctx, cs *Case, o Opts, st *Stats, fail func(cs *Case, lvl ui
 		}
 		for _, e := range exps {
 			check := func() (string, string) {
-				r := rx.Run(b.Exe, rx.RunOpts{Args: e.args, NoLimit: o.Asan})
+				r := rx.RunRobust(b.Exe, rx.RunOpts{Args: e.args, NoLimit: o.Asan})
+				if r.Infra {
+					c.Broken("could not execute " + b.Exe + ": " + firstN(r.Stderr, 200))
+					return "", ""
+				}
 				atomic.AddInt64(&st.Runs, 1)
 				ok := r.Stdout == e.out.Stdout && r.Exit == e.out.Exit && r.Signal == "" && !r.TimedOut && !r.Truncated
 				if e.out.RtErr && !strings.Contains(r.Stderr, "Laufzeitfehler") {
@@ -340,7 +356,11 @@ func runProgram(c *ev.Ctx, cs []*Case, tagged bool, o Opts, st *Stats, _ any) []
 			all(lvl, "compilation failed at stage "+b.Stage+": "+firstN(b.Log, 600)+"\n"+firstN(diag, 600), b.Log)
 			break // the other levels would fail the same way
 		}
-		r := rx.Run(b.Exe, rx.RunOpts{NoLimit: o.Asan})
+		r := rx.RunRobust(b.Exe, rx.RunOpts{NoLimit: o.Asan})
+		if r.Infra {
+			c.Broken("could not execute " + b.Exe + ": " + firstN(r.Stderr, 200))
+			continue
+		}
 		atomic.AddInt64(&st.Runs, 1)
 		os.Remove(b.Exe)
 		os.Remove(b.Obj)
